@@ -139,8 +139,11 @@ impl RdbEngine {
         // Note: We don't check bgsave_in_progress here because save() can be called
         // from within bgsave() thread. The caller is responsible for managing concurrency.
         
-        // Create temporary file
-        let temp_path = self.file_path.with_extension("tmp");
+        // Create temporary file; every save has its own, so a SAVE and a background save
+        // running at the same time cannot write into each other's file
+        static SAVE_COUNTER: std::sync::atomic::AtomicU64 = std::sync::atomic::AtomicU64::new(0);
+        let temp_path = self.file_path.with_extension(format!(
+            "tmp.{}.{}", std::process::id(), SAVE_COUNTER.fetch_add(1, std::sync::atomic::Ordering::Relaxed)));
         
         println!("RDB: Starting dump to {}", temp_path.display());
         
